@@ -147,19 +147,20 @@ def src_pairs(s):
 
 def resample_queries(op):
     """the interpolator calls `lagrange(enumerate(data))(idx)` that `resample(sig, old, new, order, zero)` makes on
-    a finite input (lazy_poly.py:582-609; the window bookkeeping itself is property C19's)"""
+    a finite input (lazy_poly.py:582-609; the window bookkeeping itself is property C19's).  `step` and `idx` are
+    computed in the number types the real call gets (a float step moves the window where ITS rounded sums say)."""
     sig = [dec(nom(v)) for v in op[1]]
-    old, new, order, zero = dec(nom(op[2])), dec(nom(op[3])), op[4], dec(nom(op[5]))
-    thr = F(order + 1, 2)
+    order, zero = op[4], dec(nom(op[5]))
+    thr = .5 * (order + 1)
     ntake = order // 2 + 1                             # rint(threshold): halves round away from zero
-    step = old / new
+    step = lit(op[2]) / lit(op[3])
     data = deque([zero] * (order + 1), maxlen=order + 1)
     first = sig[:ntake]
     if len(first) < ntake:
         return []
     data.extend(first)
     rest = sig[ntake:]
-    idx = F(int(thr))
+    idx = int(thr)
     out = []
     pos = 0
     while True:
